@@ -210,7 +210,7 @@ def plan(tier):
 
 
 def run_part(part, seed, shard, nshards, budget):
-    return hyp.search(case_st(density=(part == "density")), run_case, budget["n_examples"], seed, part, shrink=(part == "bound"))
+    return hyp.search(case_st(density=(part == "density")), run_case, budget["n_examples"], seed, part, shrink=(part == "bound"), skip_zero=(part == "density"))
 
 
 def replay(part, case):
